@@ -262,8 +262,24 @@ func solveAll(e *Exec, res *HarnessResult, prop string, timeoutS int, meta *Harn
 			if d := os.Getenv("VERIF_DUMP"); d != "" {
 				cd = filepath.Join(d, res.Harness+"_cover_"+sanitize(g.id))
 			}
-			r := e.decide(asserts, timeoutS, meta.Solver, cd, false)
+			validate := !meta.Conc && meta.Opts["noreplay"] == "" && os.Getenv("VERIF_NOREPLAY") == "" && res.Validated < 2 && !e.fpRelaxed
+			r := e.decide(asserts, timeoutS, meta.Solver, cd, validate)
 			or.Res, or.Solver, or.SolverS = r.res, r.solver, r.dur
+			if validate && r.res == "sat" && r.model != nil {
+				// translator validation: a witness of this reachable point is run natively; since every assertion
+				// of the harness was (or will be) shown to hold, the native run must not fail any of them
+				dir := filepath.Join(outDir, "witness_"+sanitize(g.id))
+				os.MkdirAll(dir, 0o755)
+				writeModel(dir, res.Harness, "(witness of "+g.id+")", "witness", g.site, r.model, e)
+				rep := nativeReplay(prop, meta, dir)
+				logb, _ := os.ReadFile(filepath.Join(dir, "replay.log"))
+				res.Validated++
+				if rep == "not-reproduced" && strings.Contains(string(logb), "failed=[]") && strings.Contains(string(logb), "panic=<nil>") {
+					res.ValidatedOK++
+				} else if rep != "error" && !strings.Contains(string(logb), "violates a harness assumption") {
+					res.ValidationNotes = append(res.ValidationNotes, fmt.Sprintf("witness of %s: native run disagrees (%s): see %s", g.id, rep, dir))
+				}
+			}
 			res.Obligations = append(res.Obligations, or)
 			continue
 		}
